@@ -27,8 +27,10 @@ class Stepped:
             for i, vars_ in init:
                 d = {}
                 for var in vars_:
+                    scaled = var.endswith("*1.2")  # the caller supplies an expression of its own fresh symbol
+                    var = var[:-4] if scaled else var
                     x = XX.sym("x" if same_names else f"{var}_{nm[i]}", sizes[(i, var)], 1)
-                    d[var] = x
+                    d[var] = 1.2 * x if scaled else x
                     self.held[(i, var)] = x
                 ic[self.els[i]] = d
         if restep:
